@@ -78,9 +78,9 @@ func VHC01Placements() {
 // VHC01Bytes: the whole pipeline on a fully symbolic program text / selector text of N
 // bytes: every byte sequence ends in success or one of the three error kinds.
 func VHC01Bytes() {
-	max := 2
+	max := 3
 	if vh.Thorough() {
-		max = 3
+		max = 4
 	}
 	n := vh.Choose("n", max+1)
 	text := vh.Bytes("t", n)
